@@ -69,7 +69,13 @@ impl ProtocolError {
             | Self::RateLimited { .. }
             | Self::ServiceUnavailable
             | Self::Timeout => true,
-            Self::Http(e) => e.is_timeout() || e.is_connect(),
+            // Transport failures are transient: timeouts, connect errors, a
+            // connection that was closed or reset while the request was being
+            // sent / before the response head arrived (`is_request`), and a
+            // response body cut off by the peer.
+            Self::Http(e) => {
+                e.is_timeout() || e.is_connect() || e.is_request() || is_interrupted_transfer(e)
+            }
             Self::HttpStatus(status) => {
                 matches!(
                     status,
@@ -120,6 +126,34 @@ impl ProtocolError {
             _ => None,
         }
     }
+}
+
+/// A response whose body was cut off by the peer (connection closed or reset
+/// before the announced length was received) is reported by reqwest as a
+/// body/decode error whose source chain ends in an I/O error. That is a
+/// transport failure, not an answer from the server.
+#[cfg(not(target_arch = "wasm32"))]
+fn is_interrupted_transfer(e: &reqwest::Error) -> bool {
+    use std::io::ErrorKind;
+
+    if !(e.is_body() || e.is_decode()) {
+        return false;
+    }
+    let mut source = std::error::Error::source(e);
+    while let Some(s) = source {
+        if let Some(io) = s.downcast_ref::<std::io::Error>() {
+            return matches!(
+                io.kind(),
+                ErrorKind::ConnectionReset
+                    | ErrorKind::ConnectionAborted
+                    | ErrorKind::BrokenPipe
+                    | ErrorKind::UnexpectedEof
+                    | ErrorKind::TimedOut
+            );
+        }
+        source = s.source();
+    }
+    false
 }
 
 pub type Result<T> = std::result::Result<T, ProtocolError>;
